@@ -25,6 +25,7 @@
  */
 #ifndef CONTRACTS_REGP_WIRE_H
 #define CONTRACTS_REGP_WIRE_H
+#include <limits.h>
 #include "spec/regp.h"
 #include "contracts/crc-16-arc.h"
 
@@ -231,6 +232,16 @@ __CPROVER_ensures(IMPLIES(spec_hdr_result(RPW_PF_RAW(framebuf), RPW_PF_N(framebu
 
 /* --------------------------------------------------------------- framing */
 
+/* send_memory carries one of three contracts, selected per target:
+ *   (default)            the ghost-transmit-record view used by every emitter
+ *                        and by contracts/regp-proc.h (C06/C09);
+ *   REGP_WIRE_LINK == 1  the wire view on a TCP endpoint: octets the sink
+ *                        driver receives, through C13's PROVED contract of
+ *                        flenp_chunks_to_sink (contracts/length-prefix.h);
+ *   REGP_WIRE_LINK == 2  no contract (bounded whole-stack harness of the
+ *                        serial branch, real rfc1055_encode + real chunk source).
+ */
+#ifndef REGP_WIRE_LINK
 /* E(send_memory): header ++ payload is handed, in this order and unchanged,
  * to the framing the transport demands (serial: SLIP, TCP: varint length
  * prefix), towards the sink of the instance */
@@ -256,15 +267,91 @@ __CPROVER_ensures(IMPLIES(pl != NULL && g_k < ps, g_tx_octet == RPW_U8(pl)[g_k])
 __CPROVER_ensures(__CPROVER_return_value <= 0)
 ;
 
-#ifdef REGP_WIRE_FRAMING
-/* ASSUMED contracts of the two framing entry points, stating only what
- * send_memory needs (to be swapped for the contracts of C12 / C13 when those
- * exist): the octets handed to the framing layer are the unread octets of the
- * chunk list in order -- recorded in the ghost transmit record (first chunk:
- * at most 16 octets, by value; second chunk: pointer, length, octet at g_k) --
- * the sink they go to, the framing kind, and the range of result codes. */
-#define RPW_CHUNK_OK(b) ((b)->offset == 0u && (b)->used <= (b)->size \
-                         && ((b)->used == 0u || __CPROVER_r_ok((b)->data, (b)->used)))
+#elif REGP_WIRE_LINK == 1
+/* ------------------------------------------------- wire view, TCP (5.2)
+ * doc/regp.txt 5.2: "length prefixing with variable-length integers as
+ * specified in Google's protobuf format": the sink receives
+ *     varint(N) ++ hdr[0..hs) ++ pl[0..ps)        N = hs + ps  (ps = 0 without payload)
+ * stated with the ghost stream idiom of C17/C13 (stubs/endpoint_drivers.h):
+ * q0 the sink driver's position at entry, g_b the one observed absolute
+ * position (arbitrary, hence every position), g_snk_val the octet the driver
+ * received there.  "As far as the driver got": a hard driver error ends the
+ * frame early (return value = the driver's, a proper initial part sent).
+ * C13's payload clause is stated through the one observed chunk g_lp_c
+ * (arbitrary, never assigned): the header clause is what it yields for
+ * g_lp_c == 0, the payload clause for g_lp_c == 1; both hold for every value
+ * of the ghost, i.e. unconditionally.
+ *
+ * Glue (RPL_GLUE_OK): C13 describes a chunk list by ghost prefix sums
+ * g_lp_sum[] / ghost sink positions g_lp_pos[] that the caller sets up; for the
+ * list send_memory builds (header chunk, payload chunk) they are functions of
+ * hs, ps and the sink position.  They are specification-only variables (never
+ * read or written by code), so requiring these values excludes no behaviour. */
+#define RPL_N(hs, pl, ps) ((size_t)(hs) + ((pl) != NULL ? (size_t)(ps) : (size_t)0))
+#define RPL_L(hs, pl, ps) spec_varint_len((uint64_t)RPL_N(hs, pl, ps))
+#define RPL_PS_MAX ((size_t)0x7fffffffffffff00)
+#define RPL_GLUE_OK(hs, pl, ps) \
+  (g_lp_sum[0] == 0u && g_lp_sum[1] == (size_t)(hs) && g_lp_sum[2] == RPL_N(hs, pl, ps) \
+   && g_snk_pos <= SIZE_MAX - RPL_N(hs, pl, ps) - 16u \
+   && g_lp_pos[0] == g_snk_pos + RPL_L(hs, pl, ps) && g_lp_pos[1] == g_lp_pos[0] + (size_t)(hs) \
+   && g_lp_pos[2] == g_lp_pos[0] + RPL_N(hs, pl, ps))
+#define RPL_Q0 __CPROVER_old(g_snk_pos)
+#define RPL_REL ((size_t)(g_b - RPL_Q0))
+#define RPL_SEEN (g_b >= RPL_Q0 && g_b < g_snk_pos)
+#define RPL_SENT ((size_t)(g_snk_pos - RPL_Q0))
+
+static int
+send_memory(RegP *p, void *hdr, size_t hs, void *pl, size_t ps)
+__CPROVER_requires(RPW_P_OK(p) && p->ep.type == RP_EP_TCP && EP_SINK_OK(&p->ep.sink) && LP_STATIC_OK())
+__CPROVER_requires((hs == 12u || hs == 14u || hs == 16u) && __CPROVER_r_ok(hdr, hs) && LP_SEP(hdr))
+__CPROVER_requires(ps <= RPL_PS_MAX && (pl == NULL || ps == 0u || (__CPROVER_r_ok(pl, ps) && LP_SEP(pl))))
+__CPROVER_requires(RPL_GLUE_OK(hs, pl, ps))
+__CPROVER_assigns(LP_SNK_ASSIGNS)
+/* result and counts */
+__CPROVER_ensures(__CPROVER_return_value <= 0)
+__CPROVER_ensures(g_snk_pos >= RPL_Q0 && RPL_SENT <= RPL_L(hs, pl, ps) + RPL_N(hs, pl, ps))
+__CPROVER_ensures(IMPLIES(__CPROVER_return_value == 0,
+    RPL_SENT == RPL_L(hs, pl, ps) + RPL_N(hs, pl, ps) && g_snk_nhard == __CPROVER_old(g_snk_nhard)))
+__CPROVER_ensures(IMPLIES(__CPROVER_return_value < 0,
+    __CPROVER_return_value == g_snk_err && !EP_TRANSIENT(__CPROVER_return_value)
+    && g_snk_nhard == (size_t)(__CPROVER_old(g_snk_nhard) + 1u)
+    && RPL_SENT < RPL_L(hs, pl, ps) + RPL_N(hs, pl, ps)))
+/* the octets: minimal base-128 varint of the frame length ... */
+__CPROVER_ensures(IMPLIES(RPL_SEEN && RPL_REL < RPL_L(hs, pl, ps),
+    g_snk_val == spec_varint_octet((uint64_t)RPL_N(hs, pl, ps), RPL_REL)))
+/* ... the header octets ... */
+__CPROVER_ensures(IMPLIES(g_lp_c == 0u && RPL_SEEN && RPL_REL >= RPL_L(hs, pl, ps) && RPL_REL - RPL_L(hs, pl, ps) < hs,
+    g_snk_val == RPW_U8(hdr)[RPL_REL - RPL_L(hs, pl, ps)]))
+/* ... the payload octets ... */
+__CPROVER_ensures(IMPLIES(g_lp_c == 1u && pl != NULL && RPL_SEEN && RPL_REL >= RPL_L(hs, pl, ps) + hs
+    && RPL_REL - RPL_L(hs, pl, ps) - hs < ps,
+    g_snk_val == RPW_U8(pl)[RPL_REL - RPL_L(hs, pl, ps) - hs]))
+/* ... and nothing outside the frame */
+__CPROVER_ensures(IMPLIES(!RPL_SEEN, g_snk_val == __CPROVER_old(g_snk_val)))
+;
+#endif /* REGP_WIRE_LINK */
+
+/* Transmit-record contracts of the two framing entry points: the ghost
+ * instrumentation behind the record view of send_memory.  They state only what
+ * send_memory's record view needs: the octets handed to the framing layer are
+ * the unread octets of the chunk list in order -- recorded in the ghost
+ * transmit record (first chunk: at most 16 octets, by value; second chunk:
+ * pointer, length, octet at g_k) -- the sink they go to, the framing kind, and
+ * the range of result codes.  The real functions do not write ghosts, so these
+ * clauses cannot be enforced on them literally; what they stand for is linked
+ * to the PROVED contracts of the framing layer:
+ *   flenp_chunks_to_sink  target lemma_tx_record_lenp enforces them (and "the
+ *       sink receives varint(hs + ps) ++ recorded header ++ recorded payload")
+ *       on rpw_lenp_recorded = { write the record; call flenp_chunks_to_sink },
+ *       with the call replaced by C13's contract; target send_memory_tcp_wire
+ *       proves the wire image of the real send_memory directly from C13's
+ *       contract, without the record;
+ *   rfc1055_encode        bounded: target send_memory_serial_wire runs the real
+ *       stack (tier B).  C12's contract is stated for its own stub source and
+ *       cannot replace the call here (send_memory feeds a chunk source over the
+ *       chunk list). */
+#define RPW_CHUNK_OK(b) ((b)->offset == 0u && (b)->used == (b)->size \
+                         && ((b)->used == 0u || ((b)->data != NULL && __CPROVER_r_ok((b)->data, (b)->used))))
 #define RPW_CHUNKS_OK(c) \
   (__CPROVER_rw_ok((c), sizeof(ByteChunks)) && (c)->active == 0u && ((c)->chunks == 1u || (c)->chunks == 2u) \
    && __CPROVER_rw_ok((c)->chunk, (c)->chunks * sizeof(ByteBuffer)) \
@@ -283,12 +370,15 @@ __CPROVER_ensures(__CPROVER_return_value <= 0)
    && g_tx_ps == ((c)->chunks == 2u ? (c)->chunk[(c)->chunks - 1u].used : 0u) \
    && IMPLIES((c)->chunks == 2u && g_k < (c)->chunk[(c)->chunks - 1u].used, \
               g_tx_octet == (c)->chunk[(c)->chunks - 1u].data[g_k]))
+/* result codes: 0 / the total, or a negative value of type int (a driver's value) */
+#define RPW_FRAMING_RC_OK(rc) ((rc) >= (ssize_t)INT_MIN)
 
+#if defined(REGP_WIRE_FRAMING) && !defined(REGP_WIRE_LINK)
 ssize_t flenp_chunks_to_sink(const LengthPrefixKind k, Sink *sink, ByteChunks *oc)
 __CPROVER_requires(k == LENP_VARIABLE && __CPROVER_r_ok(sink, sizeof(Sink)) && RPW_CHUNKS_OK(oc))
 __CPROVER_assigns(RPW_TX_ASSIGNS)
 __CPROVER_ensures(RPW_CHUNKS_RECORDED(oc) && g_tx_framing == SPEC_TX_LENP && g_tx_sink == sink)
-__CPROVER_ensures(__CPROVER_return_value >= -4095)
+__CPROVER_ensures(RPW_FRAMING_RC_OK(__CPROVER_return_value))
 ;
 
 int rfc1055_encode(const RFC1055Context *ctx, Source *source, Sink *sink)
@@ -298,10 +388,72 @@ __CPROVER_requires(__CPROVER_rw_ok(source, sizeof(Source)) && source->kind == DA
 __CPROVER_requires(__CPROVER_r_ok(sink, sizeof(Sink)))
 __CPROVER_assigns(RPW_TX_ASSIGNS)
 __CPROVER_ensures(RPW_CHUNKS_RECORDED((ByteChunks *)source->driver) && g_tx_framing == SPEC_TX_SLIP && g_tx_sink == sink)
-__CPROVER_ensures(__CPROVER_return_value <= 0 && __CPROVER_return_value >= -4095)
+__CPROVER_ensures(__CPROVER_return_value <= 0 && RPW_FRAMING_RC_OK(__CPROVER_return_value))
 ;
-
 #endif /* REGP_WIRE_FRAMING */
+
+#if defined(REGP_WIRE_LINK) && REGP_WIRE_LINK == 1
+/* lemma_tx_record_lenp: the instrumented framing call.  Its contract is the
+ * transmit-record contract above, word for word, plus the wire clause "the
+ * sink receives the varint-prefixed frame OF THE RECORD"; the extra
+ * preconditions are the ones C13's contract needs (stub sink of C17, kind
+ * table invariant, ghost sums / positions of the list, separation from the
+ * ghost state). */
+static void rpw_record(const ByteChunks *c, int framing, const Sink *sink)
+{
+  g_tx_count++; g_tx_framing = framing; g_tx_sink = sink;
+  g_tx_hs = c->chunk[0].used;
+  for (size_t i = 0; i < 16; i++)
+    g_tx_hdr[i] = c->chunk[0].data[i < c->chunk[0].used ? i : 0u];
+  g_tx_pl = c->chunks == 2 ? c->chunk[1].data : NULL;
+  g_tx_ps = c->chunks == 2 ? c->chunk[1].used : 0;
+  if (c->chunks == 2 && g_k < c->chunk[1].used) g_tx_octet = c->chunk[1].data[g_k];
+}
+ssize_t rpw_lenp_recorded(const LengthPrefixKind k, Sink *sink, ByteChunks *oc)
+{
+  rpw_record(oc, SPEC_TX_LENP, sink);
+  return flenp_chunks_to_sink(k, sink, oc);
+}
+#define RPR_HS(c) ((c)->chunk[0].used)
+#define RPR_PS(c) ((c)->chunks == 2u ? (c)->chunk[(c)->chunks - 1u].used : (size_t)0)
+#define RPR_NOT_TX(q) (!__CPROVER_same_object((q), g_tx_hdr) && !__CPROVER_same_object((q), &g_tx_count) \
+   && !__CPROVER_same_object((q), &g_tx_hs) && !__CPROVER_same_object((q), &g_tx_pl) && !__CPROVER_same_object((q), &g_tx_ps) \
+   && !__CPROVER_same_object((q), &g_tx_octet) && !__CPROVER_same_object((q), &g_tx_framing) && !__CPROVER_same_object((q), &g_tx_sink))
+#define RPR_EXTRA_OK(sink, c) \
+  (EP_SINK_OK(sink) && LP_STATIC_OK() && RPR_PS(c) <= RPL_PS_MAX \
+   && LP_SEP(c) && LP_SEP((c)->chunk) && RPR_NOT_TX(c) && RPR_NOT_TX((c)->chunk) \
+   && LP_SEP((c)->chunk[0].data) && RPR_NOT_TX((c)->chunk[0].data) \
+   && IMPLIES((c)->chunks == 2u && RPR_PS(c) > 0u, LP_SEP((c)->chunk[(c)->chunks - 1u].data) && RPR_NOT_TX((c)->chunk[(c)->chunks - 1u].data)) \
+   && g_lp_sum[0] == 0u && g_lp_sum[1] == RPR_HS(c) && g_lp_sum[2] == RPR_HS(c) + RPR_PS(c) \
+   && g_snk_pos <= SIZE_MAX - (RPR_HS(c) + RPR_PS(c)) - 16u \
+   && g_lp_pos[0] == g_snk_pos + spec_varint_len((uint64_t)(RPR_HS(c) + RPR_PS(c))) \
+   && g_lp_pos[1] == g_lp_pos[0] + RPR_HS(c) && g_lp_pos[2] == g_lp_pos[0] + RPR_HS(c) + RPR_PS(c))
+/* the frame length and prefix length OF THE RECORD */
+#define RPR_N (g_tx_hs + g_tx_ps)
+#define RPR_L spec_varint_len((uint64_t)RPR_N)
+
+ssize_t rpw_lenp_recorded(const LengthPrefixKind k, Sink *sink, ByteChunks *oc)
+__CPROVER_requires(k == LENP_VARIABLE && __CPROVER_r_ok(sink, sizeof(Sink)) && RPW_CHUNKS_OK(oc))
+__CPROVER_requires(RPR_EXTRA_OK(sink, oc))
+__CPROVER_assigns(RPW_TX_ASSIGNS, LP_SNK_ASSIGNS)
+/* the transmit-record contract of flenp_chunks_to_sink */
+__CPROVER_ensures(RPW_CHUNKS_RECORDED(oc) && g_tx_framing == SPEC_TX_LENP && g_tx_sink == sink)
+__CPROVER_ensures(RPW_FRAMING_RC_OK(__CPROVER_return_value))
+/* what the sink received is the varint-prefixed frame of the record */
+__CPROVER_ensures(__CPROVER_return_value != 0 && g_snk_pos >= RPL_Q0 && RPL_SENT <= RPR_L + RPR_N)
+__CPROVER_ensures(IMPLIES(__CPROVER_return_value > 0,
+    (size_t)__CPROVER_return_value == RPR_L + RPR_N && RPL_SENT == RPR_L + RPR_N))
+__CPROVER_ensures(IMPLIES(__CPROVER_return_value < 0,
+    __CPROVER_return_value == g_snk_err && !EP_TRANSIENT(__CPROVER_return_value) && RPL_SENT < RPR_L + RPR_N))
+__CPROVER_ensures(IMPLIES(RPL_SEEN && RPL_REL < RPR_L, g_snk_val == spec_varint_octet((uint64_t)RPR_N, RPL_REL)))
+__CPROVER_ensures(IMPLIES(g_lp_c == 0u && RPL_SEEN && RPL_REL >= RPR_L && RPL_REL - RPR_L < g_tx_hs,
+    g_snk_val == g_tx_hdr[(RPL_REL - RPR_L) < 16u ? (RPL_REL - RPR_L) : 0u]))
+__CPROVER_ensures(IMPLIES(g_lp_c == 1u && RPL_SEEN && RPL_REL >= RPR_L + g_tx_hs && RPL_REL - RPR_L - g_tx_hs < g_tx_ps
+    && g_k == RPL_REL - RPR_L - g_tx_hs, g_snk_val == g_tx_octet))
+__CPROVER_ensures(IMPLIES(!RPL_SEEN, g_snk_val == __CPROVER_old(g_snk_val)))
+;
+#endif /* REGP_WIRE_LINK == 1 */
+
 
 /* -------------------------------------------------------------- requests */
 
